@@ -115,12 +115,13 @@ def run(tier, v):
     # design level: the five TLC runs go on in the background while the harness is built and the drivers run
     import concurrent.futures
     vlib.spec_copy()
-    ex = concurrent.futures.ThreadPoolExecutor(max_workers=7)
+    ex = concurrent.futures.ThreadPoolExecutor(max_workers=8)
     design = {
         "Responses_exh": ex.submit(vlib.tlc, "Responses", "Responses_exh.cfg", workers=6, heap="4g", deadlock=False, timeout=1200),
         "Availability_exh": ex.submit(vlib.tlc, "Availability", "Availability_exh.cfg", workers=2, heap="2g", deadlock=False, timeout=900),
         "Responses_neg_panic": ex.submit(vlib.tlc, "Responses", "Responses_neg_panic.cfg", workers=1, heap="1g", deadlock=False, timeout=600),
         "Responses_neg_announced": ex.submit(vlib.tlc, "Responses", "Responses_neg_announced.cfg", workers=1, heap="1g", deadlock=False, timeout=600),
+        "Responses_neg_wkt": ex.submit(vlib.tlc, "Responses", "Responses_neg_wkt.cfg", workers=1, heap="1g", deadlock=False, timeout=600),
         "Availability_neg_bind": ex.submit(vlib.tlc, "Availability", "Availability_neg_bind.cfg", workers=1, heap="1g", deadlock=False, timeout=600),
         "Scenario_neg_panic": ex.submit(vlib.tlc, "ScenarioMC", "Scenario_neg_panic.cfg", workers=1, heap="1g", deadlock=False, timeout=600),
     }
@@ -140,7 +141,7 @@ def run(tier, v):
         vlib.tlc_must_pass(r, name)
         states += r.distinct
         trans += r.generated
-    for name in ("Responses_neg_panic", "Responses_neg_announced", "Availability_neg_bind", "Scenario_neg_panic"):
+    for name in ("Responses_neg_panic", "Responses_neg_announced", "Responses_neg_wkt", "Availability_neg_bind", "Scenario_neg_panic"):
         vlib.tlc_must_fail(design[name].result(), name)
     ex.shutdown()
     rows, tr = validate(v, out)
@@ -175,7 +176,7 @@ def run(tier, v):
         "ammo_fired": sum(r_["fired"] for r_ in rows),
         "samples_observed": sum(len(r_["samples"]) for r_ in rows),
         "fatal_runs_documented": sum(1 for r_ in rows if r_["fatal"]),
-        "negative_controls": ["Responses_neg_panic", "Responses_neg_announced", "Scenario_neg_panic", "Availability_neg_bind"],
+        "negative_controls": ["Responses_neg_panic", "Responses_neg_announced", "Responses_neg_wkt", "Scenario_neg_panic", "Availability_neg_bind"],
         "trace_spec_states": tr.distinct,
     }
     return "model_checking", cov, [
